@@ -34,24 +34,24 @@ type Job struct {
 }
 
 type Summary struct {
-	Kind        string           `json:"kind"`
-	Runs        int              `json:"runs"`
-	Steps       int64            `json:"steps"`
-	Points      int64            `json:"points"`
-	SimMs       int64            `json:"sim_ms"`
-	WallUs      int64            `json:"wall_us"`
-	Counters    map[string]int64 `json:"counters"`
-	Digests     []string         `json:"digests"`
-	StateSigs   []string         `json:"state_sigs"`
-	Nontrivial  []string         `json:"nontrivial"` // digests of non-trivial runs
-	Samples     []string         `json:"samples"`
-	PerScenario map[string]int   `json:"per_scenario"`
-	Policies    map[string]int   `json:"policies"`
-	Foreign     int              `json:"foreign_failures"`
-	ForeignSig  map[string]int   `json:"foreign_sigs"`
+	Kind        string            `json:"kind"`
+	Runs        int               `json:"runs"`
+	Steps       int64             `json:"steps"`
+	Points      int64             `json:"points"`
+	SimMs       int64             `json:"sim_ms"`
+	WallUs      int64             `json:"wall_us"`
+	Counters    map[string]int64  `json:"counters"`
+	Digests     []string          `json:"digests"`
+	StateSigs   []string          `json:"state_sigs"`
+	Nontrivial  []string          `json:"nontrivial"` // digests of non-trivial runs
+	Samples     []string          `json:"samples"`
+	PerScenario map[string]int    `json:"per_scenario"`
+	Policies    map[string]int    `json:"policies"`
+	Foreign     int               `json:"foreign_failures"`
+	ForeignSig  map[string]int    `json:"foreign_sigs"`
 	ForeignEx   map[string]string `json:"foreign_examples"`
-	HarnessErrs []string         `json:"harness_errs"`
-	LastIndex   int              `json:"last_index"`
+	HarnessErrs []string          `json:"harness_errs"`
+	LastIndex   int               `json:"last_index"`
 }
 
 func scenarioByName(prop, name string) *Scenario {
